@@ -266,8 +266,8 @@ PLAN["C10"]["thorough"]["tests"][0]["shards"] = 9
 PLAN["C10"]["thorough"]["tests"].append({"run": "TestC10Promotion", "shards": 4, "checks": 900, "timeout": 840})
 PLAN["C10"]["rule"] += "; TestC10Promotion: stack programs with faulty writes and rebuilds, promoted replica's counter = source's at every promotion, all RW replicas report the same count at the end"
 
-PLAN["C07"]["quick"]["tests"][0]["shards"] = 9
-PLAN["C07"]["quick"]["tests"].append({"run": "TestC07Window", "shards": 3, "checks": 8, "timeout": 130, "tags": ("verif", "debug"), "env": {"VERIF_LUNMAP_WINDOW": 1}})
+PLAN["C07"]["quick"]["tests"][0]["shards"] = 8
+PLAN["C07"]["quick"]["tests"].append({"run": "TestC07Window", "shards": 4, "checks": 12, "timeout": 130, "tags": ("verif", "debug"), "env": {"VERIF_LUNMAP_WINDOW": 1}})
 PLAN["C07"]["quick"]["tests"][1]["checks"] = 3
 PLAN["C07"]["thorough"]["tests"][0]["shards"] = 7
 PLAN["C07"]["thorough"]["tests"].append({"run": "TestC07Window", "shards": 3, "checks": 150, "timeout": 840, "tags": ("verif", "debug"), "env": {"VERIF_LUNMAP_WINDOW": 1}})
